@@ -545,6 +545,16 @@ func main() {
 		}
 	}
 	run.CountN("family:nested-waves", nNest)
+	// overlapping operations on one WebSocket connection
+	ov := overlapCases(procs)
+	for _, c := range ov {
+		if pa.enough() {
+			break
+		}
+		c := c
+		pa.record(c, pa.exec(&c), false)
+	}
+	run.CountN("family:ws-overlap", len(ov))
 	// WebSocket family
 	nWS := run.Scale(400, 5000)
 	for i := 0; i < nWS && !pa.enough(); i++ {
